@@ -81,6 +81,16 @@ func execC10(r *kernel.Run, s C10Spec) {
 func execC10Bubble(r *kernel.Run, s C10Spec) {
 	kernel.SeedLibrary(r.T, s.LibSeed)
 	key, okey := kernel.GetKey(s.Key), kernel.GetKey(s.OtherKey)
+	// public key objects as gabi's own constructors and readers leave them: the Issuer name is empty (the
+	// committed harness keys carry one for the keyshare world); two keys are then told apart by nothing
+	// but their values
+	{
+		k1, k2 := *key, *okey
+		p1, p2 := *key.Pk, *okey.Pk
+		p1.Issuer, p2.Issuer = "", ""
+		k1.Pk, k2.Pk = &p1, &p2
+		key, okey = &k1, &k2
+	}
 	pk := key.Pk
 	ra, err := kernel.NewRevAuthority(key)
 	if err != nil {
